@@ -84,6 +84,7 @@ def check(ctx):
     ctx.rule("R2", "alias words precede the accumulated user arguments in every combination, and no return drops the user's arguments", floor=4)
     ctx.rule("R3", "decorator aliases are collected by a forward scan of the value that stops at the first non-decorator", floor=2)
     ctx.rule("R4", "the alias table is accessed only by key in eval_alias/get (no iteration: definition order cannot matter)", floor=3)
+    ctx.rule("R6", "the second alias walker (threadability prediction) terminates too: its loop has a budget or a seen-set, and it hands on to the predictor lookup - which can call it again - only a name established not to be an alias", floor=2)
     ctx.rule("R5", "spec-level resolution tests the running-alias stack before resolving; the proxy thread pushes the alias name inside the swap", floor=3)
 
     mod = ctx.repo.module(AL)
@@ -331,6 +332,59 @@ def check(ctx):
     ok_app, _p = acfg_.must_pass(acfg_.entry, lambda m_: m_ in apps, exits=("exit",)) if apps else (False, None)
     ctx.ob("R3", "xonsh/procs/specs.py:SubprocSpec.add_decorator", "add_decorator appends to the stage's list on every path (order of arrival kept)", ok_app, key="add_decorator|append", where=loc(ad))
 
+    _predictor_walker(ctx)
+
+
+def _predictor_walker(ctx):
+    CCF = "xonsh/commands_cache.py"
+    cm = ctx.repo.module(CCF)
+    fn = cm.func("CommandsCache.default_predictor_alias")
+    st = f"{CCF}:CommandsCache.default_predictor_alias"
+    cfg = CFG(fn)
+    defs = df.all_defs(fn)
+    loops = [n for n in walk_local(fn) if isinstance(n, ast.While)]
+    table = None
+    for w in loops:
+        ins = [c for c in ast.walk(w.test) if isinstance(c, ast.Compare) and len(c.ops) == 1 and isinstance(c.ops[0], ast.In) and isinstance(c.comparators[0], ast.Attribute) and unparse(c.comparators[0].value) == "self"]
+        if ins:
+            table = unparse(ins[0].comparators[0])
+    if not loops or table is None:
+        raise AnchorMissing(f"{st}: the loop that follows the alias chain (`while name in self.<table>`)")
+    for w in loops:
+        # variant A: a counter initialised to a positive constant, decremented in the body, with an exit when it is used up
+        budget = None
+        for n in ast.walk(w):
+            if isinstance(n, ast.AugAssign) and isinstance(n.op, ast.Sub) and const_value(n.value, None) == 1 and isinstance(n.target, ast.Name):
+                ds = [d for d in defs.get(n.target.id, []) if d.kind == "assign"]
+                init_ok = len(ds) == 1 and isinstance(const_value(ds[0].value, None), int) and const_value(ds[0].value, 0) > 0 and not lexically_inside(ds[0].stmt, w)
+                nd = cfg.nodes_of(n)
+                every_iter = bool(nd) and not [x for x in walk_local(w) if isinstance(x, ast.Continue)]  # no way round the decrement to the next iteration
+                exits = [i for i in ast.walk(w) if isinstance(i, ast.If) and n.target.id in unparse(i.test) and any(isinstance(b, (ast.Return, ast.Break, ast.Raise)) for b in i.body)] or ([w] if n.target.id in unparse(w.test) else [])
+                if init_ok and every_iter and exits:
+                    budget = n.target.id
+        # variant B: a set of visited names, tested in the loop condition and grown in the body
+        seen = None
+        for c in ast.walk(w.test):
+            if isinstance(c, ast.Compare) and len(c.ops) == 1 and isinstance(c.ops[0], ast.NotIn) and isinstance(c.comparators[0], ast.Name):
+                sname = c.comparators[0].id
+                grows = [x for x in calls_in(w) if isinstance(x.func, ast.Attribute) and x.func.attr == "add" and unparse(x.func.value) == sname and x.args and unparse(x.args[0]) == unparse(c.left)]
+                if grows and isinstance(w.test, ast.BoolOp) and isinstance(w.test.op, ast.And):
+                    seen = sname
+        ctx.ob("R6", st, f"`while {short(w.test, 50)}` has a variant: " + (f"budget `{budget}`" if budget else f"visited set `{seen}`" if seen else "none recognised"), bool(budget or seen), key="predictor-walker|loop-without-variant", where=loc(w))
+    # the onward call: predictor lookup -> default_predictor -> this walker again, if the name is an alias
+    onward = [c for c in calls_in(fn) if (call_name(c) or "").endswith("get_predictor_threadable") and c.args]
+    if not onward:
+        raise AnchorMissing(f"{st}: the onward call of get_predictor_threadable")
+    back = cm.func("CommandsCache.default_predictor")
+    reenters = any((call_name(c) or "").endswith("default_predictor_alias") for c in calls_in(back))
+    for c in onward:
+        arg = unparse(c.args[0])
+        facts = set()
+        for nd in cfg.nodes_of(stmt_of(c)):
+            facts |= nfacts(cfg, nd)
+        ok = (not reenters) or (f"{arg} in {table}", False) in facts
+        ctx.ob("R6", st, f"`{short(c, 50)}` is reached only when `{arg} in {table}` is known to be false (otherwise the lookup comes back here with a fresh state: unbounded recursion on a cycle)", ok, key="predictor-walker|onward-call-with-alias-name", where=loc(c), detail="facts: " + "; ".join(sorted(("" if p_ else "not ") + t for t, p_ in facts)))
+
 
 META = {
     "technique": "static analysis: recursion-variant check via CFG guard facts + def-use of the seen set, sequence-order analysis of list constructions, table-access-shape rule",
@@ -343,4 +397,5 @@ META = {
     "the first non-decorator; the table is read by key only; spec resolution tests $__ALIAS_STACK first. "
     "Behaviour of user callables is out of reach.",
     "note": "Decides the listed structural clauses, not the behaviour. Trusted: frozenset union, list concatenation.",
+    "more": "Also decided: the threadability predictor's alias walker has a loop variant and reaches the onward predictor lookup only with a name known not to be an alias (no unbounded mutual recursion on a cycle).",
 }
